@@ -459,30 +459,52 @@ def trial_record(ctx):
     ds = P.func('DistributionSampler.sample')
     di = P.func('DistributionSampler.__init__')
     res.saw(ds), res.saw(di)
+    def _seeding(c):
+        return isinstance(c, ast.Call) and (
+            unparse(c.func) == 'np.random.seed' or
+            unparse(c.func).split('.')[-1] in ('RandomState', 'default_rng',
+                                               'Generator')) and \
+            any(isinstance(n, ast.Name) and n.id == 'seed'
+                for n in ast.walk(c))
     seed_guard = [n for n in ast.walk(di.node) if isinstance(n, ast.If) and
-                  any(isinstance(c, ast.Call) and
-                      unparse(c.func) == 'np.random.seed'
-                      for b in n.body for c in ast.walk(b))]
+                  any(_seeding(c) for b in n.body for c in ast.walk(b))]
     guard_ok = bool(seed_guard) and all(
         isinstance(n.test, ast.Compare) and len(n.test.ops) == 1 and
         isinstance(n.test.ops[0], ast.IsNot) and
         unparse(n.test.left) == 'seed' and
         unparse(n.test.comparators[0]) == 'None' for n in seed_guard)
-    unguarded = any(isinstance(st, ast.Expr) and isinstance(
-        st.value, ast.Call) and unparse(st.value.func) == 'np.random.seed'
-        for st in di.node.body)
+    unguarded = any(_seeding(c) for st in di.node.body
+                    if isinstance(st, (ast.Expr, ast.Assign))
+                    for c in ast.walk(st))
     if not (guard_ok or unguarded):
         res.fail(ctx.finding(
             'TRIAL-RECORD', di, di.node,
             'DistributionSampler seeds the generator only when the seed is '
             'truthy: seed=0 is silently ignored and the run is not '
             'reproducible', construct='DistributionSampler seed guard'))
-    if find(ds, 'np.random.normal(**self.params)') and \
-            find(ds, 'np.random.uniform(**self.params)') and \
-            find(di, 'np.random.seed(seed)') and \
-            find(di, 'self.params = params'):
-        res.ok('DistributionSampler: seeded at construction, draws with its '
-               'own parameters')
+    draws = {c.func.attr: c for c in ast.walk(ds.node)
+             if isinstance(c, ast.Call) and isinstance(c.func, ast.Attribute)
+             and c.func.attr in ('normal', 'uniform')}
+    own_params = all(
+        d in draws and not draws[d].args and len(draws[d].keywords) == 1 and
+        draws[d].keywords[0].arg is None and
+        unparse(draws[d].keywords[0].value) == 'self.params'
+        for d in ('normal', 'uniform'))
+    # each draw sits under the test of its own distribution name
+    arms = {}
+    for n in ast.walk(ds.node):
+        if isinstance(n, ast.If) and isinstance(n.test, ast.Compare) and \
+                unparse(n.test.left) == 'self.distribution' and \
+                isinstance(n.test.ops[0], ast.Eq):
+            for c in ast.walk(ast.Module(body=n.body, type_ignores=[])):
+                if isinstance(c, ast.Call) and isinstance(
+                        c.func, ast.Attribute) and c.func.attr in draws:
+                    arms[const_str(n.test.comparators[0])] = c.func.attr
+    if own_params and arms == {'normal': 'normal', 'uniform': 'uniform'} \
+            and find(di, 'self.params = params') and \
+            find(di, 'self.distribution = distribution'):
+        res.ok('DistributionSampler: seeded at construction, draws the named '
+               'distribution with its own parameters')
     else:
         res.fail(ctx.finding('TRIAL-RECORD', ds, ds.node,
                              'DistributionSampler does not seed / draw with '
@@ -510,5 +532,97 @@ def c01_setters(ctx):
     from .C01 import setter_writes as _r
     return _r(ctx)
 
-RULES = [c01_setters, c01_init_stores, c14_update, trial_record, final_reset, reset_before_apply, reset_covers, one_sample,
+def index_edit(ctx):
+    """an index variable / perturbation reads n(wavelength) of the medium and
+    writes it back through Optic.set_index.  If set_index installs a new
+    wavelength-independent, lossless IdealMaterial, reading and writing back
+    the SAME value already changes the lens (dispersion and absorption are
+    gone), and reset / undo cannot bring the glass back."""
+    from ..match import find
+    P = ctx.P
+    res = Result('INDEX-EDIT', 'writing back the index that was read leaves '
+                 'the medium as it was (dispersion, absorption): index '
+                 'variables are faithful handles, reset and undo restore the '
+                 'glass')
+    si = P.func('Optic.set_index')
+    uv = P.func('IndexVariable.update_value')
+    gv = P.func('IndexVariable.get_value')
+    for f in (si, uv, gv):
+        res.saw(f)
+    through = any(isinstance(c, ast.Call) and isinstance(c.func, ast.Attribute)
+                  and c.func.attr == 'set_index' for c in ast.walk(uv.node))
+    ideal = [c for c in ast.walk(si.node) if isinstance(c, ast.Call) and
+             unparse(c.func) == 'IdealMaterial']
+    keeps = any(isinstance(x, ast.Attribute) and x.attr in ('material_post',
+                                                            'material_pre')
+                and isinstance(x.ctx, ast.Load) for c in ideal
+                for x in ast.walk(c))
+    if through and ideal and not keeps:
+        res.fail(ctx.finding(
+            'INDEX-EDIT', si, ideal[0],
+            'Optic.set_index replaces the medium by IdealMaterial(n=value, '
+            'k=0) built from the number alone; IndexVariable.update_value '
+            '(optimiser start point, undo, perturbation reset) goes through '
+            'it, so a catalogue glass loses its dispersion and absorption at '
+            'the first evaluation and is never restored',
+            construct='index edit replaces the medium'))
+    else:
+        res.ok('index edits keep the dispersion and absorption of the medium')
+    return res
+
+
+def sampler_rng(ctx):
+    """a seeded sampler makes a run reproducible when the sequence it draws
+    depends on its own seed only"""
+    P = ctx.P
+    res = Result('SAMPLER-RNG', 'a seeded DistributionSampler owns its random '
+                 'state (a Generator / RandomState created from the seed)')
+    di = P.func('DistributionSampler.__init__')
+    ds = P.func('DistributionSampler.sample')
+    res.saw(di), res.saw(ds)
+    glob_seed = [c for c in ast.walk(di.node) if isinstance(c, ast.Call) and
+                 unparse(c.func) in ('np.random.seed', 'numpy.random.seed',
+                                     'random.seed')]
+    glob_draw = [c for c in ast.walk(ds.node) if isinstance(c, ast.Call) and
+                 unparse(c.func).startswith(('np.random.', 'numpy.random.',
+                                             'random.'))]
+    # positive form: a seeded sampler stores a generator built from the seed
+    # and sample() draws through that attribute
+    own = [st.targets[0].attr for st in ast.walk(di.node)
+           if isinstance(st, ast.Assign) and len(st.targets) == 1 and
+           isinstance(st.targets[0], ast.Attribute) and
+           isinstance(st.value, ast.Call) and
+           unparse(st.value.func).split('.')[-1] in (
+               'RandomState', 'default_rng', 'Generator') and
+           any(isinstance(n, ast.Name) and n.id == 'seed'
+               for n in ast.walk(st.value))]
+    draws = [c for c in ast.walk(ds.node) if isinstance(c, ast.Call) and
+             isinstance(c.func, ast.Attribute) and
+             c.func.attr in ('normal', 'uniform')]
+    if not draws:
+        raise AnalysisError('DistributionSampler.sample: draws not found')
+    if not glob_seed and not glob_draw and not (
+            own and all(unparse(c.func.value) == 'self.' + own[0]
+                        for c in draws)):
+        glob_draw = draws
+    if glob_seed or glob_draw:
+        res.fail(ctx.finding(
+            'SAMPLER-RNG', di, (glob_seed or glob_draw)[0],
+            'DistributionSampler seeds and draws from numpy\'s global '
+            'generator: the seed of one sampler is overwritten by the next '
+            'sampler constructed, and anything else that draws random '
+            'numbers in between changes the sequence (two set-ups seeded '
+            'with 42, built and then run one after the other, differ)',
+            construct='sampler uses the global generator'))
+    else:
+        res.ok('sampler draws from its own generator')
+    return res
+
+
+def const_str(n):
+    return n.value if isinstance(n, ast.Constant) and \
+        isinstance(n.value, str) else None
+
+
+RULES = [sampler_rng, index_edit, c01_setters, c01_init_stores, c14_update, trial_record, final_reset, reset_before_apply, reset_covers, one_sample,
          target_default]
